@@ -441,9 +441,22 @@ def apply_literal_rewrite(text, frm, to, expect, cnt, where):
     code = [k for k, t in enumerate(toks) if t.kind in CODE]
     hits = []
     i = 0
+    # a pattern token spelled __ID1__ .. __ID9__ matches any ONE identifier (a renamed local keeps the rewrite applicable); the same name in
+    # the replacement stands for the identifier that was matched
+    def tok_match(t, f, binds):
+        if re.fullmatch(r"__ID\d__", f.text):
+            if t.kind != "id":
+                return False
+            if f.text in binds and binds[f.text] != t.text:
+                return False
+            binds[f.text] = t.text
+            return True
+        return t.text == f.text
+    hit_binds = []
     while i + len(ftoks) <= len(code):
-        if all(toks[code[i + d]].text == ftoks[d].text for d in range(len(ftoks))):
-            hits.append((code[i], code[i + len(ftoks) - 1]))
+        binds = {}
+        if all(tok_match(toks[code[i + d]], ftoks[d], binds) for d in range(len(ftoks))):
+            hits.append((code[i], code[i + len(ftoks) - 1])); hit_binds.append(binds)
             i += len(ftoks)
         else:
             i += 1
@@ -452,8 +465,11 @@ def apply_literal_rewrite(text, frm, to, expect, cnt, where):
     if expect is None and not hits:
         raise AnchorLost("%s: rewrite `%s` found no site" % (where, frm))
     out, last = [], 0
-    for a, b in hits:
-        out.append(toks_text(toks[last:a])); out.append(to); last = b + 1
+    for (a, b), binds in zip(hits, hit_binds):
+        rep = to
+        for name, val in binds.items():
+            rep = rep.replace(name, val)
+        out.append(toks_text(toks[last:a])); out.append(rep); last = b + 1
     out.append(toks_text(toks[last:]))
     cnt.add("R6.rewrite `%s` => `%s`" % (frm, to), len(hits))
     return "".join(out)
